@@ -363,6 +363,33 @@ def _pool():
     return concurrent.futures.ProcessPoolExecutor(max_workers=env.nproc(), mp_context=ctx)
 
 
+class _Deadline:
+    """Kills the worker pool when a whole check run exceeds its wall-clock limit (the run is then inconclusive)."""
+
+    def __init__(self, seconds):
+        import threading
+        self.fired = False
+        self.seconds = seconds
+        self._timer = None
+        self._threading = threading
+
+    def watch(self, pool):
+        def fire():
+            self.fired = True
+            for p in list(getattr(pool, '_processes', {}).values()):
+                try:
+                    p.kill()
+                except Exception:
+                    pass
+        self._timer = self._threading.Timer(self.seconds, fire)
+        self._timer.daemon = True
+        self._timer.start()
+
+    def cancel(self):
+        if self._timer is not None:
+            self._timer.cancel()
+
+
 def write_replay(prop_id, part_name, case, fail_json, seed, tier, shrunk):
     os.makedirs(REPLAY_DIR, exist_ok=True)
     payload = {'property': prop_id, 'part': part_name, 'case': case, 'failure': fail_json,
@@ -437,7 +464,10 @@ def run_check(prop_id, tier, seed):
                        'known_samples': {}, 'failures': {}, 'samples': [],
                        'extra': collections.Counter(), 'wall': 0.0} for p in parts}
     harness_errors = []
+    monitor = prop.start_monitor(violations_hook=None) if hasattr(prop, 'start_monitor') else None
+    deadline = _Deadline(float(os.environ.get('VERIF_MAX_WALL', '1800' if tier == 'quick' else '28800')))
     with _pool() as pool:
+        deadline.watch(pool)
         try:
             for part_name, k, res, err in pool.map(_worker, tasks, chunksize=1):
                 if err is not None:
@@ -473,7 +503,7 @@ def run_check(prop_id, tier, seed):
                 os.unlink(hp)
                 path = write_replay(prop_id, payload['part'], payload['case'], payload['failure'], seed, tier, False)
                 violations.append((payload['part'], payload['failure']['sig'], path, 'worker hung on this case'))
-            if not hangs:
+            if not hangs and not deadline.fired:
                 harness_errors.append('worker pool broke: %r' % (e,))
 
         # 3. shrink and record new failures
@@ -498,6 +528,13 @@ def run_check(prop_id, tier, seed):
                 path = write_replay(prop_id, part_name, small, fj, seed, tier, done)
                 cnt = merged[part_name]['failures'][sig][2]
                 violations.append((part_name, sig, path, '%d cases; %s' % (cnt, json.dumps(fj, default=repr)[:1500])))
+
+    deadline.cancel()
+    if monitor is not None:
+        monitor.stop()
+    if deadline.fired:
+        print('HARNESS-ERROR overall wall-clock limit reached (inconclusive, not a violation)', file=sys.stderr)
+        return 2
 
     # 4. generator health: required label fractions
     degenerate = []
